@@ -100,6 +100,31 @@ def noAccessorNamedProps (env : Env) (rt : RT) : Bool :=
     | .object props _ => props.any (fun p => p.1 == "size" || p.1 == "length")
     | _ => false) env rt
 
+mutual
+/-- the value holds a built-in instance somewhere (a Map, a Set, a Date, a typed array) -/
+def JsVal.hasBuiltin : JsVal → Bool
+  | .map _ | .set _ | .date _ | .typed _ _ => true
+  | .arr xs => hasBuiltinL xs
+  | .obj ps => hasBuiltinP ps
+  | _ => false
+def hasBuiltinL : List JsVal → Bool
+  | [] => false
+  | x :: xs => JsVal.hasBuiltin x || hasBuiltinL xs
+def hasBuiltinP : List (String × JsVal) → Bool
+  | [] => false
+  | (_, v) :: ps => JsVal.hasBuiltin v || hasBuiltinP ps
+end
+
+/-- hypothesis `NoLaxObjectBesideBuiltin` (C03/D33b): not all three of — the value holds a built-in instance, the type has a
+union, and the type has a "lax" object type (no index signature, every declared property accepts `undefined`: such a type
+structurally accepts ANY object, built-in instances included, and its parse step answers with the projection `{}`) -/
+def noLaxObjectBesideBuiltin (env : Env) (rt : RT) (x : JsVal) : Bool :=
+  !(JsVal.hasBuiltin x &&
+    anyInEnv (fun t => match t with | .anyOf _ => true | .disc _ _ _ _ => true | _ => false) env rt &&
+    anyInEnv (fun t => match t with
+      | .object props [] => props.all (fun p => match validate env false 60 p.2 .undef with | .ok true => true | _ => false)
+      | _ => false) env rt)
+
 /-- hypothesis `NoRequiredUndefinedAcceptingProp` (C02/D48): no REQUIRED property whose type accepts `undefined`
 (the validator then accepts an absent key, the schema lists the key as required) -/
 def noRequiredUndefAccepting (env : Env) (rt : RT) : Bool :=
